@@ -3,7 +3,7 @@ import UF.Proofs.HostRule
   Helper lemmas for C18 (`c18_dispatch`): outside the carve-out of DESIGN.md §6 a line is
   neither a comment nor cosmetic syntax for `NewRule`.
 -/
-namespace UF
+namespace UF.H
 open Bytes
 
 theorem indexByte_go_head (c : UInt8) (s : Bytes) (k i : Nat) (h : indexByte.go c s k = some i) :
@@ -170,4 +170,17 @@ theorem not_comment_not_cosmetic (line : Bytes) (h : hostLineCarveOut line = fal
           rw [hp] at this
           simp at this
 
-end UF
+end UF.H
+
+namespace UF.H
+open Bytes
+
+def c18Ext : Ext where
+  psl := fun _ => ([], false)
+  parseAddr := fun s =>
+    if s == lit "0.0.0.0" then some { is4 := true, val := 0 }
+    else if s == lit "::ffff:1.2.3.4" then some { is4 := false, val := 281470698652420 } else none
+  parsePrefix := fun _ => none
+  pat := fun _ _ _ => false
+
+end UF.H
